@@ -14,10 +14,17 @@ def base_lp(rnd, tier, big=False):
     lo, hi = (40, 130) if tier == "quick" else (100, 400)
     nr = rnd.randint(lo, hi)
     nc = rnd.randint(lo, int(hi * 1.5))
-    if big:
+    if big == "large":
+        # enough pivots in each phase for several refactorizations (eta limit 100) between start and stop
+        nr, nc = rnd.randint(170, 230), rnd.randint(260, 340)
+    elif big:
         # beyond 200 rows / 400 columns the library switches to the crash initial basis (and partial pricing kicks in)
         nr, nc = rnd.randint(200, 260), rnd.randint(400, 470)
     kind = rnd.choice(["opt", "opt", "opt", "inf", "unb"])
+    if big == "large" and kind == "unb":
+        kind = "opt"        # an UNBOUNDED answer at this size is established by the pure rational simplex: minutes per solve
+    if big == "large" and kind == "opt" and rnd.random() < 0.6:
+        return gen_lp.cover(rnd, nr, nc)
     dens = min(1.0, rnd.choice([3.0, 5.0, 8.0]) / nc)
     if kind == "opt":
         m = gen_lp.planted_optimal(rnd, nr, nc, "int", dens=dens)
@@ -157,7 +164,7 @@ def transform(rnd, m0):
 
 def gen_group(tier, seed, k):
     rnd = run.rng("C15", tier, seed, "grp", k)
-    m0 = base_lp(rnd, tier, big=(tier == "thorough" and k % 8 == 7))
+    m0 = base_lp(rnd, tier, big=(True if (tier == "thorough" and k % 8 == 7) else ("large" if (k % 4 == 3 or k >= 32) else False)))
     nvar = 3 if tier == "quick" else 7
     variants = [(m0, F(1), Z, ["identity"])] + [transform(rnd, m0) for _ in range(nvar)]
     cases = []
@@ -252,7 +259,7 @@ def chunk(payload):
     return part
 
 
-RULE = ("groups: a planted LP (optimal / infeasible by margins down to 2^-70 / unbounded; 30-90 rows in quick, 100-400 in thorough, sparse) and 3 (7) variants obtained by random "
+RULE = ("groups: a planted LP (optimal / infeasible by margins down to 2^-70 / unbounded; 40-130 rows in quick, 100-400 in thorough, sparse; `large` groups of 170-230 rows x 260-340 columns, planted or covering-type (min c.x, Ax>=b, x>=0, several refactorizations per phase)) and 3 (7) variants obtained by random "
         "compositions of {row/column permutation, positive and negative row scaling with sense flip, variable rescaling and shift, objective negation with min<->max, row "
         "duplication, redundant non-negative row combination, equality -> two inequalities}; each variant solved by QSexact_solver (random algorithm, pricing, scaling) in its "
         "own process; statuses must coincide and optimal values must coincide after the exact affine correction; every OPTIMAL result is also checked against the exact "
@@ -262,7 +269,7 @@ RULE = ("groups: a planted LP (optimal / infeasible by margins down to 2^-70 / u
 def run_check(prop, tier, seed):
     b = run.builds(["asan", "plain"])
     rep = run.Report(prop, tier, seed, RULE)
-    n = 32 if tier == "quick" else 120
+    n = 72 if tier == "quick" else 400        # groups 32.. are all `large` (cheap: the exact driver only verifies there)
     payloads = [dict(tier=tier, seed=seed, ks=[k], bindir=b) for k in sorted(range(n), key=lambda k: 0 if k % 8 == 7 else 1)]
     for part in run.pool_map("checks.c15", "chunk", payloads):
         rep.merge(part)
